@@ -735,6 +735,7 @@ func runC15(c *Ctx) {
 		}
 	}
 	c15FailingWatcher(c)
+	c15RoleDefinitionShapes(c)
 	// the synchronised wrapper announces exactly what the plain enforcer announces: every method that changes
 	// rules (Self* replays included) on twin enforcers with a WatcherEx+UpdatableWatcher each
 	rounds := 2
